@@ -87,7 +87,10 @@ type c05State struct {
 	outcome string
 }
 
-var c05Outcomes = []string{"marker", "marker", "marker", "error-reserr", "error-plain", "panic-reserr", "panic-err", "panic-str", "panic-int", "none", "error-std-notfound"}
+var c05Outcomes = []string{"marker", "marker", "marker", "error-reserr", "error-plain", "panic-reserr", "panic-err", "panic-str", "panic-int", "none", "error-std-notfound", "error-wrapped", "panic-wrapped"}
+
+// an error of another type that merely wraps a *res.Error is not "an error value of the library's error type"
+var errWrapped = fmt.Errorf("wrapped: %w", errRes)
 
 func c05Snapshot(marker string, r *res.Request) c05Snap {
 	return c05Snap{Marker: marker, RName: r.ResourceName(), Params: r.PathParams(), Query: r.Query(), Type: r.Type(), Method: r.Method(),
@@ -110,6 +113,10 @@ func c05Handle(st *c05State, marker string, rq interface{}, reply func(r *res.Re
 		panic(errRes)
 	case "panic-err":
 		panic(errPlain)
+	case "error-wrapped":
+		r.Error(errWrapped)
+	case "panic-wrapped":
+		panic(errWrapped)
 	case "panic-str":
 		panic("boom")
 	case "panic-int":
